@@ -31,7 +31,7 @@ def call_entry(rng, entry, cls, model, invalid=True):
     T = rng.uniform(290.0, 380.0)
     both = invalid and cls == "both_permeate"
     Tperm = rng.uniform(200.0, T - 25.0) if both else None
-    pperm = rng.uniform(0.0, 3.0) if both else None
+    pperm = (rng.uniform(0.0, 3.0) if rng.random() < 0.75 else 0.0) if both else None       # 0.0 kPa is a stated pressure too
     c = pv.Composition(p=rng.uniform(0.05, 0.95), type=rng.choice(["weight", "molar"]))
     if invalid and cls in ("model_params_missing", "component_constants_missing") and entry in ("activity", "partial_pressures", "solver") \
             and rng.random() < 0.3:
@@ -49,6 +49,19 @@ def call_entry(rng, entry, cls, model, invalid=True):
         return perv.calculate_separation_factor(T, c, **kw)
     if entry == "ideal_curve":
         return perv.ideal_diffusion_curve(T, [c, pv.Composition(0.5, "weight")], **kw)
+    if invalid and cls == "underdetermined_ea" and entry.startswith("nonideal"):
+        # one experiment per component, no activation energy; a single curve: at the feed temperature for the non-isothermal model
+        # (which cools away from it), at another temperature for the isothermal and the curve model
+        exps = [pv.IdealExperiment(name="e", temperature=320.0, component=cmp_, permeance=P1, activation_energy=None)
+                for cmp_ in (mix.first_component, mix.second_component)]
+        perv = pv.Pervaporation(membrane=pv.Membrane(name="v", ideal_experiments=pv.IdealExperiments(experiments=exps)), mixture=mix)
+        tc = T if entry == "nonideal_noniso" else T + rng.choice([-15.0, 12.0])
+        cs = rp.make_curve_set(rng, mix, n_curves=1, n_points=4, t_center=tc)
+        if entry == "nonideal_curve":
+            return perv.non_ideal_diffusion_curve(cs, T, c, 0.01, 2, calculation_type=model)
+        cond = pv.Conditions(membrane_area=1.0, initial_feed_temperature=T, initial_feed_amount=1e3, initial_feed_composition=c)
+        pk = dict(conditions=cond, number_of_steps=2, delta_hours=1e-2, calculation_type=model, diffusion_curve_set=cs)
+        return perv.non_ideal_isothermal_process(**pk) if entry == "nonideal_iso" else perv.non_ideal_non_isothermal_process(**pk)
     if entry == "nonideal_curve":
         cs = rp.make_curve_set(rng, mix, n_curves=1, n_points=4, t_center=T)
         return perv.non_ideal_diffusion_curve(cs, T, c, 0.01, 2, **kw)
